@@ -145,3 +145,48 @@ func VerifC19_ConcurrentAppends() {
 		check(gs)
 	}
 }
+
+// C19: a lookup of a NOT YET KNOWN index walks the chain (the network call is replaced by a scenario function through a
+// hook prologue: it returns the sets [from..to] it was asked for); while that call is under way the periodic refresh may
+// deliver further sets. Whatever happened meanwhile, the set returned for index i is the set with index i (or an error).
+func VerifC19_FetchFuture() {
+	n := zzverif.Len("known", 1, 2)
+	gs := verifNew(n)
+	want := n - 1 + zzverif.Len("ahead", 1, 2) // the index a gossiped VAA names
+	meanwhile := zzverif.Len("meanwhile", 0, 1, 2, 3) // how many sets the periodic refresh appends during the fetch
+	short := zzverif.Len("shortAnswer", 0, 1) == 1  // the node answers with fewer sets than asked for
+	calls := 0
+	zzverif.Hooks["GuardianSets.getGuardianSetsRange"] = func(ctx context.Context, fromIndex uint32, toIndex uint32) ([]*common.GuardianSet, error) {
+		calls++
+		zzverif.Assert(int(fromIndex) == n && int(toIndex) == want, "walk-asks-for-the-unknown-range")
+		if meanwhile > 0 {
+			_ = gs.updateGuardianSets(verifSets(n, n-1+meanwhile))
+		}
+		to := int(toIndex)
+		if short {
+			to--
+		}
+		return verifSets(int(fromIndex), to), nil
+	}
+	defer delete(zzverif.Hooks, "GuardianSets.getGuardianSetsRange")
+	s, err := gs.GetGuardianSet(context.Background(), want)
+	zzverif.Assert(calls == 1, "unknown-index-is-fetched-once")
+	if err == nil {
+		zzverif.Reach("served")
+		zzverif.Assert(s != nil && int(s.Index) == want, "lookup-returns-the-set-with-that-index")
+	} else {
+		zzverif.Reach("refused")
+		known := n - 1 + meanwhile
+		if !short && want > known {
+			known = want
+		}
+		if short && want-1 > known {
+			known = want - 1
+		}
+		zzverif.Assert(want > known, "lookup-of-a-known-index-does-not-fail")
+	}
+	for i := 0; i < len(gs.guardianSetLists); i++ {
+		zzverif.Assert(int(gs.guardianSetLists[i].Index) == i, "list-position-equals-set-index")
+	}
+	zzverif.Reach("end")
+}
